@@ -18,7 +18,9 @@ def gen_case(ctx, idx, small=False):
         fstree.build(d, fstree.gen_tree(rng, max_entries=6 if small else rng.choice([3, 10, 25, 50]), max_depth=6,
                                         p_dir=rng.choice([0.3, 0.45, 0.6])))
         roots.append(d)
-    return {"base": base, "roots": roots}
+    # links to directories and files inside the searched trees (listed, never entered without `symlinks`)
+    links = fstree.add_internal_links(rng, roots, rng.choice([0, 1, 2, 4]))
+    return {"base": base, "roots": roots, "links": links}
 
 
 def spellings(rng, base, root, single):
